@@ -198,10 +198,18 @@ def emit(decls, progs, cfg):
   rlbox::tainted<%s, Sbx> t;
   set_%d(sb, t, v);
   if (op == "rt") {
-    auto p = sb.malloc_in_sandbox<%s>();
+    // the struct is written into the MIDDLE element of an array of three whose bytes are all 0xA5: the images before
+    // and behind it must keep every byte
+    auto p0 = sb.malloc_in_sandbox<%s>(3);
+    const size_t isz = sizeof(rlbox::tainted_volatile<%s, Sbx>);
+    auto raw0 = reinterpret_cast<uint8_t*>(p0.UNSAFE_unverified());
+    std::memset(raw0, 0xA5, 3 * isz);
+    auto p = p0 + 1;
     *p = t;
+    size_t bad = SIZE_MAX;
+    for (size_t k = 0; k < 3 * isz; k++) if ((k < isz || k >= 2 * isz) && raw0[k] != 0xA5) { bad = k; break; }
     auto g = reinterpret_cast<const G%s*>(p.UNSAFE_unverified());
-    std::string out = "G=" + show_guest_%d(*g);
+    std::string out = (bad == SIZE_MAX ? std::string("N=ok") : "N=bad@" + std::to_string(bad)) + " G=" + show_guest_%d(*g);
     rlbox::tainted<%s, Sbx> back = *p;
     out += " A=" + show_app_%d(back);
     // the other whole-struct read-back paths: unwrap of the dereferenced struct, copy_and_verify on the pointer
@@ -212,7 +220,7 @@ def emit(decls, progs, cfg):
   }
   auto r = sb.invoke_sandbox_function(echo%d, t);
   return "G=" + g_glog + " A=" + show_app_%d(r);
-}""" % (i, nm, nm, offs, nm, goffs, nm, i, nm, nm, i, nm, i, i, nm, i, i, i))
+}""" % (i, nm, nm, offs, nm, goffs, nm, i, nm, nm, nm, i, nm, i, i, nm, i, i, i))
     out.append("using sprog_fn = std::string (*)(sandbox_t&, const std::string&, const toks_t&);")
     out.append("static sprog_fn g_sprogs[] = {%s};" % ", ".join("prog_%d" % i for i in range(len(progs))))
     out.append(r'''
